@@ -12,7 +12,7 @@ from sa.intervals import World
 from sa.load import AnalysisError, Func, Repo, body_nodes, unparse
 from sa.loops import LoopChecker
 from sa.report import Check, Site
-from sa.sym import Lin
+from sa.sym import Lin, same_on_byte
 
 READERS = {
     "read_boolean": ("_read_asn1_boolean", "BOOLEAN", False),
@@ -192,10 +192,10 @@ def header_reader(repo: Repo, chk: Check) -> None:
         tfields = tag.fields if hasattr(tag, "fields") else {}
         site = Site.of(f, construct=f"_read_asn1_header [{'high' if high else 'low'} tag number, {'long' if long_form else 'short'} length]")
         want_class = Lin.atom(("rshift", Lin.atom(("bitand", r1, Lin(0xC0))), Lin(6)))
-        okc = tfields.get("tag_class") == want_class
+        okc = same_on_byte(tfields.get("tag_class"), want_class, ("read", ints[0].rid))
         chk.ob("O2", site, okc, "class = (octet & 0xC0) >> 6" if okc else f"tag class is decoded as {tfields.get('tag_class')!r}, expected (octet & 0xC0) >> 6")
         if not high:
-            okn = tfields.get("tag_number") == Lin.atom(("bitand", r1, Lin(0x1F))) or "TypeTagNumber" in repr(tfields.get("tag_number"))
+            okn = same_on_byte(tfields.get("tag_number"), Lin.atom(("bitand", r1, Lin(0x1F))), ("read", ints[0].rid)) or "TypeTagNumber" in repr(tfields.get("tag_number"))
             chk.ob("O2", site, okn, "number = octet & 0x1F" if okn else f"tag number is decoded as {tfields.get('tag_number')!r}")
         # position of the length octet = number of identifier octets
         lens = [r for r in ints[1:]]
@@ -244,10 +244,22 @@ def header_reader(repo: Repo, chk: Check) -> None:
         cons = tag.fields.get("is_constructed") if hasattr(tag, "fields") else None
         r1 = Lin.atom(("read", ints[0].rid))
         rec = getattr(cons, "rec", None)
-        okcon = rec is not None and rec.name == "bool" and rec.arg(0) == Lin.atom(("bitand", r1, Lin(0x20)))
+        okcon = rec is not None and rec.name == "bool" and _same_truth_on_byte(rec.arg(0), Lin.atom(("bitand", r1, Lin(0x20))), ("read", ints[0].rid))
         chk.ob("O2", Site.of(f, construct="constructed bit"), bool(okcon), "constructed = bool(octet & 0x20)" if okcon else f"the constructed bit is decoded as {cons!r}, expected bool(octet & 0x20)")
     okacc, why = big_endian_accumulation(repo, f)
     chk.ob("O2", Site.of(f, construct="big-endian length accumulation"), okacc, why)
+
+
+def _same_truth_on_byte(a: t.Any, b: t.Any, atom: t.Any) -> bool:
+    from sa.sym import eval_lin
+
+    if not isinstance(a, Lin) or not isinstance(b, Lin):
+        return False
+    for v in range(256):
+        x, y = eval_lin(a, {atom: v}), eval_lin(b, {atom: v})
+        if x is None or y is None or bool(x) != bool(y):
+            return False
+    return True
 
 
 def big_endian_accumulation(repo: Repo, f: Func) -> t.Tuple[bool, str]:
@@ -486,15 +498,11 @@ def digit_loops(repo: Repo, chk: Check) -> None:
 
 
 def nonempty_guard(f: Func, node: ast.AST) -> t.Tuple[bool, str]:
-    """struct.unpack('B', v[a:a+1]) / v[i]: a dominating guard proves the octet exists."""
-    g = build(f.node)
-    nid = None
-    for cn in g.nodes:
-        if cn.ast is not None and cn.kind in ("stmt", "cond") and not isinstance(cn.ast, (ast.FunctionDef, ast.AsyncFunctionDef)) and any(x is node for x in ast.walk(cn.ast)):
-            nid = cn.id
-    if nid is None:
-        return False, "construct not found in the CFG"
-    guards = g.guards_of(nid)
+    """struct.unpack('B', v[a:a+1]) / v[i]: the conditions that dominate the read prove  a < len(v)  (any spelling:
+    `len(v) < a + 1 -> raise`, `len(v) <= a -> raise`, `if a < len(v)`, or `not v -> raise` for a == 0)."""
+    from sa.linfacts import ge0_facts, goal_ge, proves_ge0
+    from .util import atoms_at, prov_text
+
     if isinstance(node, ast.Call):
         arg = node.args[1]
         base = arg.value if isinstance(arg, ast.Subscript) else arg
@@ -503,14 +511,23 @@ def nonempty_guard(f: Func, node: ast.AST) -> t.Tuple[bool, str]:
         base = node.value  # type: ignore[attr-defined]
         lo = node.slice  # type: ignore[attr-defined]
     b = unparse(base)
-    for c, pol in guards:
-        tc = unparse(c)
-        if tc == b and pol:
-            if lo is None or unparse(lo) in ("0", ""):
-                return True, f"dominated by 'if not {b}: raise'"
-        if isinstance(c, ast.Compare) and pol is False and tc == f"len({b}) < {unparse(lo)} + 1":
-            return True, f"dominated by 'len({b}) < {unparse(lo)} + 1 -> raise'"
-    # loop index over range(len(x))
+    atoms = atoms_at(f, node)
+    lo_e: ast.expr = lo if lo is not None else ast.Constant(value=0)
+    try:
+        lo_txt = prov_text(f, lo_e, node) if not isinstance(lo_e, ast.Constant) else unparse(lo_e)
+        lo_p = ast.parse(lo_txt, mode="eval").body
+    except SyntaxError:
+        lo_p = lo_e
+    bp = prov_text(f, base, node)
+    for c, pol in atoms:
+        if unparse(c) in (b, bp) and pol and unparse(lo_e) in ("0", ""):
+            return True, f"dominated by 'if not {b}: raise'"
+    facts = ge0_facts(atoms)
+    for bx in (b, bp):
+        ln = ast.parse(f"len({bx})", mode="eval").body
+        for lo_x in (lo_e, lo_p):
+            if proves_ge0(facts, goal_ge(ln, lo_x, 1)):
+                return True, f"the dominating conditions give {unparse(lo_x)} < len({b})"
     return False, f"{unparse(node)[:60]} reads an octet of '{b}' without a dominating non-empty / bounds test: empty content (e.g. '06 00') escapes with struct.error / IndexError instead of a deliberate error"
 
 
